@@ -943,6 +943,11 @@ def _numeral(t):
 def _fp_numeral(t):
     import struct
 
+    if z3.is_fp_value(t):
+        if t.isNaN():
+            return math.nan
+        if t.isInf():
+            return -math.inf if t.isNegative() else math.inf
     if t.sort() == F64:
         bv = z3.simplify(z3.fpToIEEEBV(t))
         if z3.is_bv_value(bv):
